@@ -81,7 +81,7 @@ def h1(cx):
             continue
         n += 1
         fn = F.impl_fn(im, 'poll')
-        g = cx.graph(fn['key'])
+        g = cx.graph(fn['key'], forward=True)      # (a `take_args(slot)` helper is the take() it wraps)
         label = cx.label(fn)
         calls = [x for x in g.nodes if x['kind'] == 'call' and x['name'] == '<fnptr>']   # (also inside a closure given to Poll::map)
         ok = len(calls) == 1
@@ -103,7 +103,27 @@ def h2(cx):
     """never early: coroutine bodies of Scheduler::schedule (pre-transform MIR)"""
     F = cx.facts
     res = []
-    cors = [fn for fn in F.fns.values() if fn['kind'] == 'coroutine' and '::schedule::' in fn['key']]      # (not `scheduler::…`)
+    # the task futures: every coroutine (async block / async fn body) that a Scheduler::schedule builds, directly or through a helper
+    from ..expr import walk as _walk
+    cor_ids = set()
+    impls_with_future = 0
+    for im0 in F.impls_of('scheduler::Scheduler'):
+        fn0 = F.impl_fn(im0, 'schedule')
+        if fn0 is None:
+            continue
+        g0 = cx.graph(fn0['key'])
+        before0 = len(cor_ids)
+        mine0 = set()
+        for n0 in g0.nodes:
+            for e0 in list(n0.get('args') or []) + [n0.get('rhs')]:
+                if e0 is None:
+                    continue
+                for x0 in _walk(e0):
+                    if x0[0] == 'agg' and x0[1] in ('coroutine', 'coroutine_closure'):
+                        cor_ids.add(x0[2])
+                        mine0.add(x0[2])
+        impls_with_future += 1 if mine0 else 0
+    cors = [fn for fn in F.fns.values() if fn['kind'] == 'coroutine' and (fn['key'] in cor_ids or fn.get('def') in cor_ids)]
     for fn in sorted(cors, key=lambda f: f['key']):
         g = cx.graph(fn['key'])
         label = cx.label(fn)
@@ -161,7 +181,7 @@ def h2(cx):
                 if e is None:
                     continue
                 for x in walk(e):
-                    if x[0] == 'agg' and x[1] in ('coroutine', 'closure', 'coroutine_closure') and 'schedule' in str(x[2]) and x not in caps:
+                    if x[0] == 'agg' and x[1] in ('coroutine', 'coroutine_closure') and x not in caps:
                         caps.append(x)
         if not caps:
             continue
@@ -173,8 +193,8 @@ def h2(cx):
                            fn['span']))
     if m < 2:
         res.append(Finding(ID, 'H2', 'floor:captures', False, 'expected >= 2 schedule() bodies that build a task future, found %d' % m))
-    if len(cors) < 2:
-        res.append(Finding(ID, 'H2', 'floor', False, 'expected >= 2 schedule coroutines, found %d' % len(cors)))
+    if impls_with_future < 2 or not cors:
+        res.append(Finding(ID, 'H2', 'floor', False, 'expected >= 2 Scheduler::schedule impls that build a task future, found %d (%d coroutine bodies)' % (impls_with_future, len(cors))))
     return res
 
 
